@@ -633,11 +633,36 @@ func (a *analyzer) refine(fn *ssa.Function, st *state, cond ssa.Value, truth boo
 			}
 		}
 		v = a.res(st, v)
-		if cur, isRead := st.ints[v]; isRead && truth && evalCond(cond, c.Call.Args[0], -1) == 0 {
-			cur.lo = max(cur.lo, 0)
-			st.ints[v] = cur
-			if m, ok := st.marks["n:"+v.Name()]; ok && m.hi < st.ov {
-				st.ov = m.hi
+		if cur, isRead := st.ints[v]; isRead {
+			// the predicate is folded for every value the read result can still have: the result keeps those for which
+			// the predicate has the value of this branch (pure library predicate or pure helper of the repo, purefn.go)
+			lo, hi, known := INF, -INF, true
+			for k := max(cur.lo, -1); k <= min(cur.hi, 255) && known; k++ {
+				switch evalCond(cond, c.Call.Args[0], k) {
+				case -1:
+					known = false
+				case 1:
+					if truth {
+						lo, hi = min(lo, k), max(hi, k)
+					}
+				case 0:
+					if !truth {
+						lo, hi = min(lo, k), max(hi, k)
+					}
+				}
+			}
+			if known && cur.lo >= -1 && cur.hi <= 255 {
+				if lo > hi {
+					st.bottom = true
+					return st
+				}
+				cur = iv{lo, hi}
+				st.ints[v] = cur
+				if cur.lo >= 0 {
+					if m, ok := st.marks["n:"+v.Name()]; ok && m.hi < st.ov {
+						st.ov = m.hi
+					}
+				}
 			}
 		}
 		return st
